@@ -330,3 +330,57 @@ pub fn scan_impl_methods() -> Vec<(String, String)> {
     }
     out
 }
+
+
+/// Methods of SignatureScheme (plain impl blocks) that take only `&self` / `self` and return a HashAlgorithm or a
+/// SignAlgorithm: (method name, return type). Whatever they are called, "a SignatureScheme splits into hash = high
+/// byte and signature = low byte" says what they must return.
+pub fn scan_split_methods() -> Vec<(String, String)> {
+    let mut out = Vec::new();
+    let mut files: Vec<_> = std::fs::read_dir("/repo/src").map(|d| d.filter_map(|e| e.ok()).map(|e| e.path()).collect()).unwrap_or_default();
+    files.sort();
+    for f in files {
+        let Ok(s) = std::fs::read_to_string(&f) else { continue };
+        let mut rest = s.as_str();
+        while let Some(p) = rest.find("impl SignatureScheme") {
+            let after = &rest[p..];
+            let Some(ob) = after.find('{') else { break };
+            let mut depth = 1;
+            let mut end = after.len();
+            for (k, c) in after[ob + 1..].char_indices() {
+                if c == '{' {
+                    depth += 1;
+                } else if c == '}' {
+                    depth -= 1;
+                    if depth == 0 {
+                        end = ob + 1 + k;
+                        break;
+                    }
+                }
+            }
+            let body: String = after[ob + 1..end].split_whitespace().collect::<Vec<_>>().join(" ");
+            let mut b = body.as_str();
+            while let Some(q) = b.find("pub ") {
+                b = &b[q + 4..];
+                let t = b.strip_prefix("const ").unwrap_or(b);
+                let Some(t) = t.strip_prefix("fn ") else { continue };
+                let name: String = t.chars().take_while(|c| c.is_alphanumeric() || *c == '_').collect();
+                let Some(open) = t.find('(') else { continue };
+                let Some(close) = t[open..].find(')') else { continue };
+                let args = t[open + 1..open + close].trim();
+                let tail = t[open + close + 1..].trim_start();
+                if !(args == "&self" || args == "self") {
+                    continue;
+                }
+                if let Some(r) = tail.strip_prefix("->") {
+                    let ret: String = r.trim_start().chars().take_while(|c| c.is_alphanumeric() || *c == '_').collect();
+                    if ret == "HashAlgorithm" || ret == "SignAlgorithm" {
+                        out.push((name, ret));
+                    }
+                }
+            }
+            rest = &after[end.min(after.len() - 1)..];
+        }
+    }
+    out
+}
